@@ -110,7 +110,11 @@ func recordConcHistory(id string, rnd *rand.Rand, procs, opsPer int) []any {
 	for p := range plans {
 		for i := 0; i < opsPer; i++ {
 			o := op{a: u[rnd.Intn(len(u))]}
-			switch r := rnd.Intn(10); {
+			switch r := rnd.Intn(12); {
+			case r == 10:
+				o.k = "list"
+			case r == 11:
+				o.k = "count"
 			case r < 3:
 				o.k = "add"
 			case r < 5:
@@ -149,6 +153,8 @@ func recordConcHistory(id string, rnd *rand.Rand, procs, opsPer int) []any {
 					opj = map[string]any{"k": "merge", "from": o.from}
 				case "query":
 					opj = map[string]any{"k": "query", "pat": o.a}
+				case "list", "count":
+					opj = map[string]any{"k": o.k}
 				default:
 					opj = map[string]any{"k": o.k, "a": o.a}
 				}
@@ -166,6 +172,14 @@ func recordConcHistory(id string, rnd *rand.Rand, procs, opsPer int) []any {
 					got := []mgjson.Atom{}
 					store.GetFacts(mgjson.ASTAtom(o.a), func(a ast.Atom) error { got = append(got, mgjson.FromAtom(a)); return nil })
 					r = got
+				case "list":
+					got := [][]any{}
+					for _, sym := range store.ListPredicates() {
+						got = append(got, []any{sym.Symbol, sym.Arity})
+					}
+					r = got
+				case "count":
+					r = store.EstimateFactCount()
 				case "merge":
 					src := factstore.NewSimpleInMemoryStore()
 					for _, a := range o.from {
